@@ -467,6 +467,12 @@ class Body:
         tr = self.trace(it_op["place"], refs_only, _seen, depth + 1)
         out = set()
         for (r, p) in tr:
+            if r[0] in ("arg", "local", "agg") :
+                # a collection handed over directly (`zip(args)`, `for x in v`): its elements
+                full = tuple(p) + ("[]",) + tuple(item_path)
+                deeper = self._through_agg(r, full, through, _seen, depth + 1) if r[0] == "agg" else None
+                out |= deeper if deeper else {(r, full)}
+                continue
             if r[0] != "call" or p:
                 return None
             t = self.term(r[1])
